@@ -32,6 +32,7 @@ GEN_DEPS = ["GenGrammar", "GenUnits"]
 ALLOWED_AXIOMS: List[str] = []
 THEOREMS: Dict[str, str] = {
     "C07_smoke": "example",
+    "C07_no_crash_partial": "partial", "C07_no_crash_partial_ex": "example",
     "C07_overflow_refuted": "refuted", "C07_308_digits_fine": "example",
     "C07_position_wellformed": "full",
     "C07_error_points_at_token": "full", "C07_src_error_points_at_token": "full", "C07_error_points_ex": "example",
@@ -415,7 +416,7 @@ def suites(tier: str, seed: int) -> List[Suite]:
                shard=120)
     if tier == "replay":
         return [su]
-    n = {"quick": 700, "thorough": 14000}[tier]
+    n = {"quick": 700, "thorough": 8000}[tier]
     cases: List[Case] = []
     for batch in CC.pmap(_one, [(seed, i, tier) for i in range(n)]):
         cases.extend(batch)
